@@ -1,6 +1,50 @@
-import IwModel.Model.Wal
-/-! # C04 — with WAL, a kill at any instant loses no synced work and tears no operation -/
+import IwModel.Lemmas.WalIdem
+/-! # C04 — with WAL, a kill at any instant loses no synced work and tears no operation
+
+Theorems over the executable model `IwModel.Wal` of `src/kv/iwal.c`.  A checkpoint and the recovery at open
+are the same loop (`_rollforward_exl` = `Wal.replay`); a process that dies between the application of two log
+records leaves the main file with a prefix of the log's records applied and the log itself untouched (it is
+truncated only after the last record).  The theorems say that the next roll-forward is not disturbed by that. -/
 namespace IwModel.C04
-open IwModel
+open IwModel IwModel.Wal IwModel.Gen.Wal
+
+/-- the log holds absolute-address records only (what the data listener of `iwal.c` writes for a file of
+fixed size: `WBSET`, `WBWRITE`, separators and marks; no `WBCOPY`, no `WBRESIZE`) -/
+def AbsoluteOnly (w : Bytes) : Prop :=
+  ∀ p r, (p, r) ∈ walk w → (∀ a b c, r ≠ Rec.copy a b c) ∧ (∀ a b, r ≠ Rec.resize a b)
+
+/-- **Roll-forward is idempotent over every partially applied image.**  Let the roll-forward of log `w` over
+main file `m` (up to the stop position `stop`; `0` = the whole log, as a checkpoint does) succeed.  Kill it
+after it has applied any number `j` of records — `replayAux … j …` is the loop with fuel for exactly `j`
+records — and run the complete roll-forward again over what the killed run left: the result is the result of
+the undisturbed run.  Hence death during a checkpoint, or during recovery itself, any number of times, is harmless. -/
+theorem replay_idempotent (cfg : Cfg) (stop : Nat) (w m : Bytes) (j : Nat) (habs : AbsoluteOnly w)
+    (hok : (replay cfg stop w m).rc = .ok) :
+    replay cfg stop w (replayAux cfg stop j w 0 true m).main = replay cfg stop w m := by
+  unfold replay at hok ⊢
+  obtain ⟨l, hl⟩ := recsAux_of_ok cfg stop w.length w 0 true m hok
+  have hrun := replayAux_eq_run cfg stop w.length w 0 true l hl (Nat.le_refl _)
+  have ⟨hlen, hsub⟩ := recsAux_sub_walk stop w.length w 0 true l hl
+  have hfull : ∀ x : Bytes, replayAux cfg stop w.length w 0 true x = runRecs cfg l x := by
+    intro x; rw [hrun w.length x, List.take_of_length_le hlen]
+  have hn : ∀ x ∈ l, (∀ a b c, x.1 ≠ Rec.copy a b c) ∧ (∀ a b, x.1 ≠ Rec.resize a b) := by
+    intro x hx; obtain ⟨p, hp⟩ := hsub x hx; exact habs p x.1 hp
+  rw [hfull m] at hok
+  have hgood := runRecs_ok_good cfg m.length l m rfl hn hok
+  have hgood' : ∀ x ∈ l.take j, Good cfg m.length x := fun x hx => hgood x (List.mem_of_mem_take hx)
+  have hA : replayAux cfg stop j w 0 true m = ⟨.ok, runEff (l.take j) m⟩ := by
+    rw [hrun j m]; exact runRecs_good cfg m.length _ m hgood' rfl
+  have hAlen : (runEff (l.take j) m).length = m.length :=
+    (runEff_outside m.length (l.take j) m (fun x hx => (hgood' x hx).1) rfl).1
+  rw [hA, hfull, hfull, runRecs_good cfg m.length l _ hgood hAlen, runRecs_good cfg m.length l m hgood rfl]
+  rw [runEff_idem m.length l j m (fun x hx => (hgood x hx).1) rfl]
+
+/-- the same for the image a *second* killed roll-forward leaves, and so on: any number of interrupted attempts -/
+theorem replay_idempotent_twice (cfg : Cfg) (stop : Nat) (w m : Bytes) (j k : Nat) (habs : AbsoluteOnly w)
+    (hok : (replay cfg stop w m).rc = .ok) :
+    replay cfg stop w (replayAux cfg stop k w 0 true (replayAux cfg stop j w 0 true m).main).main = replay cfg stop w m := by
+  have h1 := replay_idempotent cfg stop w m j habs hok
+  have hok1 : (replay cfg stop w (replayAux cfg stop j w 0 true m).main).rc = .ok := by rw [h1]; exact hok
+  rw [replay_idempotent cfg stop w _ k habs hok1, h1]
 
 end IwModel.C04
